@@ -127,7 +127,20 @@ def must_check(rep, model):
             ctx = SE.Ctx(model)
         ctx.inline = False
         E.run(model, fn.qual, bound, ctx=ctx)
-        checks = [e for e in ctx.trace if e['kind'] == 'call' and e['name'] == 'check_param_range' and e['args'] and e['args'][0] == p]
+        def covers(a):
+            # the checked value is the parameter itself on every path where it is kept; branches that replace it by a constant inside the bounds are harmless
+            if a == p:
+                return True
+            if a[0] == 'gamma':
+                leaves = [a[2], a[3]]
+                return any(covers(x) for x in leaves) and all(covers(x) or (T.isnum(x) and in_bounds(x)) for x in leaves)
+            return False
+
+        def in_bounds(c):
+            lo_ok = not T.isnum(lo) or c[1] >= lo[1]
+            hi_ok = not T.isnum(hi) or c[1] <= hi[1]
+            return lo_ok and hi_ok
+        checks = [e for e in ctx.trace if e['kind'] == 'call' and e['name'] == 'check_param_range' and e['args'] and covers(e['args'][0])]
         n += 1
         good = [e for e in checks if len(e['args']) == 3 and T.index(e['args'][2], C(0)) == lo and T.index(e['args'][2], C(1)) == hi]
         if not checks:
@@ -417,7 +430,10 @@ def dtable(rep, model, tier):
                               found=(first['name'], T.brief(first['guard'], 60)) if first else 'no call')
                 continue
             b = first['bound']
-            ok = b.get(ck.params[0]) == ('param', 'sigs') and b.get(ck.params[2]) == ('param', 'axis')
+            sg = T.strip_nd(b.get(ck.params[0])) if b.get(ck.params[0]) else None
+            if sg is not None and sg[0] == 'call' and sg[1] == 'astype' and sg[2]:
+                sg = sg[2][0]              # an element-type conversion keeps the shape the grid is about (what it does to the values is C11 / C12's business)
+            ok = sg == ('param', 'sigs') and b.get(ck.params[2]) == ('param', 'axis')
             k = b.get(ck.params[1])
             if kind == 'list':
                 ok = ok and k is not None and k[0] == 'nd' and k[1] == ('param', 'compute_features_kwargs')
